@@ -219,6 +219,9 @@ type syOp struct {
 	dt   int // backend milliseconds since the previous event
 	full bool
 	host string
+	// back: the wall clock of the restarted process is this far behind the one
+	// of the process that wrote the cache file (restart only).
+	back time.Duration
 }
 
 func (op syOp) String() string {
@@ -238,6 +241,10 @@ func (op syOp) String() string {
 
 		return fmt.Sprintf("sync %s +%dms", kind, op.dt)
 	case "restart":
+		if op.back != 0 {
+			return fmt.Sprintf("restart (wall clock set back by %s)", op.back)
+		}
+
 		return "restart"
 	}
 
@@ -246,6 +253,29 @@ func (op syOp) String() string {
 
 // syDts are the backend-time steps: the sync time travels in milliseconds.
 var syDts = []int{1, 1, 2, 999, 1000, 60_000}
+
+// syBacks are the steps by which the wall clock is set back across a restart
+// (zero: not at all).  A step is applied to the cache file: the stamps in it were
+// taken from the clock of the process that wrote it.
+var syBacks = []time.Duration{0, 0, time.Millisecond, time.Hour}
+
+// shiftFileStamps rewrites the cache file as the previous process would have
+// written it had its wall clock been d ahead of the current one.
+func shiftFileStamps(path string, d time.Duration) {
+	ctx := context.Background()
+	l := slogutil.NewDiscardLogger()
+	fc, err := profiledb.VerifC14LoadCache(ctx, l, path, datasize.KB)
+	hlib.Must(err)
+	if fc == nil {
+		return
+	}
+	for _, p := range fc.Profiles {
+		if c := p.FilterConfig; c != nil && c.Custom != nil {
+			c.Custom.UpdateTime = c.Custom.UpdateTime.Add(d)
+		}
+	}
+	hlib.Must(profiledb.VerifC14StoreCache(ctx, l, path, fc, datasize.KB))
+}
 
 func genSyDoms(rng *rand.Rand) (doms []string) {
 	if rng.IntN(7) == 0 {
@@ -286,7 +316,7 @@ func genSy(rng *rand.Rand, length int) (ops []syOp) {
 		case x < 44:
 			ops = append(ops, syOp{kind: "fail", full: rng.IntN(2) == 0, dt: dt()})
 		case x < 48:
-			ops = append(ops, syOp{kind: "restart"})
+			ops = append(ops, syOp{kind: "restart", back: syBacks[rng.IntN(len(syBacks))]})
 		default:
 			ops = append(ops, syOp{kind: "q", prof: rng.IntN(3), host: hosts[rng.IntN(len(hosts))]})
 		}
@@ -349,6 +379,7 @@ var lastSy struct {
 	lines                      []string
 	nFiltered, nNone, nSync    int
 	nFull, nRestart, nFailSync int
+	nSetBack                   int
 	nontrivial                 bool
 }
 
@@ -363,6 +394,7 @@ func (e *syEnv) runSyRecordOnly(r *hlib.Result, capn int, ids [3]string) {
 	r.Distribution["conv.syncs_full"] += lastSy.nFull
 	r.Distribution["conv.syncs_failed"] += lastSy.nFailSync
 	r.Distribution["conv.restarts"] += lastSy.nRestart
+	r.Distribution["conv.restarts_with_clock_set_back"] += lastSy.nSetBack
 	r.ModelOps += len(lastSy.lines)
 	r.Traces++
 	r.Case(strings.Join(lastSy.lines, "\n"), lastSy.nontrivial)
@@ -415,7 +447,7 @@ func (e *syEnv) runSy(r *hlib.Result, m *hlib.Model, capn int, ids [3]string, op
 		what, via  string
 	}
 	var seen []obs
-	nFiltered, nNone, nSync, nFull, nRestart, nFailSync, nChange := 0, 0, 0, 0, 0, 0, 0
+	nFiltered, nNone, nSync, nFull, nRestart, nFailSync, nChange, nSetBack := 0, 0, 0, 0, 0, 0, 0, 0
 	synced := false
 	for _, op := range ops {
 		switch op.kind {
@@ -479,6 +511,9 @@ func (e *syEnv) runSy(r *hlib.Result, m *hlib.Model, capn int, ids [3]string, op
 			if !synced {
 				continue
 			}
+			if op.back != 0 {
+				shiftFileStamps(path, op.back)
+			}
 			db = e.newDB(path)
 			newStores()
 			delivered = map[int]syVersion{}
@@ -486,7 +521,12 @@ func (e *syEnv) runSy(r *hlib.Result, m *hlib.Model, capn int, ids [3]string, op
 				delivered[k] = v
 			}
 			nRestart++
-			lines = append(lines, "sy restart")
+			if op.back != 0 {
+				nSetBack++
+			}
+			// The model's clock ticks once per synchronisation; a set-back of a
+			// millisecond or more is further than any history gets.
+			lines = append(lines, fmt.Sprintf("sy restart %d", b2i(op.back != 0)*1000))
 		case "q":
 			if !synced {
 				continue
@@ -557,7 +597,7 @@ func (e *syEnv) runSy(r *hlib.Result, m *hlib.Model, capn int, ids [3]string, op
 		}
 	}
 	lastSy.lines, lastSy.nFiltered, lastSy.nNone, lastSy.nSync = lines, nFiltered, nNone, nSync
-	lastSy.nFull, lastSy.nRestart, lastSy.nFailSync = nFull, nRestart, nFailSync
+	lastSy.nFull, lastSy.nRestart, lastSy.nFailSync, lastSy.nSetBack = nFull, nRestart, nFailSync, nSetBack
 	lastSy.nontrivial = nSync > 1 && nChange > 3 && nFiltered > 0 && nNone > 0
 	if record {
 		e.runSyRecordOnly(r, capn, ids)
@@ -582,6 +622,7 @@ func (e *syEnv) exhaustiveSy(r *hlib.Result, m *hlib.Model) {
 		{kind: "sync", full: true, dt: 1},
 		{kind: "sync", full: false, dt: 1},
 		{kind: "restart"},
+		{kind: "restart", back: time.Hour},
 		{kind: "q", prof: 0, host: "b.example.com"},
 		{kind: "q", prof: 1, host: "b.example.com"},
 	}
